@@ -160,6 +160,10 @@ def run_C01(ctx):
                           [c, d], {"H_enc": r1["H"][c.cid], "H_dec": h, "m": hx(m)})
 
 
+SWEEP_T = 512
+SWEEP_T_THOROUGH = 1100
+
+
 WIDTHS = {1: [1, 4], 2: [3, 5], 4: [1, 4, 8], 8: [1, 3], 16: [1, 2, 3, 8]}
 
 
@@ -479,16 +483,56 @@ def run_C09(ctx):
                 g.append(Case("buf", mode, bs, w, key, iv, ops=[f"data {hx(data[:k])}", "restate", f"data {hx(data[k:])}"], role="cut"))
             groups.append(g)
             allc += g
+    # sweep of the export moment: after every number of units t = 1..N processed in one call, export / import, continue —
+    # against the uncut run (implementation against itself; one configuration per length, taking turns)
+    sgroups, sall = [], []
+    N = SWEEP_T_THOROUGH if ctx.thorough else SWEEP_T
+    for mode in BLOCK_MODES:
+        pool = [x for x in matrix_for(mode) if x[0] <= 8]
+        cfgs = rng.sample(pool, min(4, len(pool)))
+        for t in range(1, N + 1):
+            bs, w = cfgs[t % len(cfgs)]
+            mbs = mode_bs(mode, bs)
+            key, iv = rb(rng, 16), rb(rng, ivlen(mode, bs))
+            data = rb(rng, (t + 2) * mbs)
+            g = [Case("block", mode, bs, w, key, iv, ops=[f"blocks {hx(data)}", "ivstate"], role="whole", cls_sweep=1),
+                 Case("block", mode, bs, w, key, iv, ops=[f"blocks {hx(data[:t*mbs])}", "ivstate", "reinit", f"blocks {hx(data[t*mbs:])}", "ivstate"], role="cut", cls_sweep=1)]
+            sgroups.append(g); sall += g
+    for mode in ["cfbbuf-enc", "cfbbuf-dec"]:
+        pool = [x for x in matrix_for("cbc-enc") if x[0] <= 8]
+        cfgs = rng.sample(pool, min(4, len(pool)))
+        for t in range(1, N + 1):
+            bs, w = cfgs[t % len(cfgs)]
+            key, iv = rb(rng, 16), rb(rng, bs)
+            k = t * bs + (rng.randrange(0, bs) if t % 2 else 0)
+            data = rb(rng, k + bs + 1)
+            g = [Case("buf", mode, bs, w, key, iv, ops=[f"data {hx(data)}"], role="whole", cls_sweep=1),
+                 Case("buf", mode, bs, w, key, iv, ops=[f"data {hx(data[:k])}", "restate", f"data {hx(data[k:])}"], role="cut", cls_sweep=1)]
+            sgroups.append(g); sall += g
+    for mode in STREAM_MODES:
+        pool = [x for x in matrix_for(mode) if x[0] <= 16]
+        cfgs = rng.sample(pool, min(3, len(pool)))
+        for t in range(1, N // 2 + 1):
+            bs, w = cfgs[t % len(cfgs)]
+            key = rb(rng, 16)
+            iv, cls = stream_iv(rng, mode, bs, key)
+            data = rb(rng, (t + 2) * bs)
+            g = [Case("core", mode, bs, w, key, iv, ops=[f"applyblocks {hx(data)}", "ivstate"], role="whole", cls_sweep=1),
+                 Case("core", mode, bs, w, key, iv, ops=[f"applyblocks {hx(data[:t*bs])}", "ivstate", "reinit", f"applyblocks {hx(data[t*bs:])}", "ivstate"], role="cut", cls_sweep=1)]
+            sgroups.append(g); sall += g
+    sres = ctx.run(sall, layers=())
+    ctx.no_panic(sall, sres)
     res = ctx.run(allc)
     ctx.no_panic(allc, res)
-    for g in groups:
-        hr = res["H"][g[0].cid]
+    for g in groups + sgroups:
+        rr = sres if g[0].meta.get("cls_sweep") else res
+        hr = rr["H"][g[0].cid]
         if hr is None:
             continue
         ro = outs(hr)
         fin = [l for l in hr if l.startswith("state ")][-1:] if g[0].family != "buf" else []
         for c in g[1:]:
-            h = res["H"][c.cid]
+            h = rr["H"][c.cid]
             if h is None:
                 continue
             if outs(h) != ro or ([l for l in h if l.startswith("state ")][-1:] != fin and c.family != "buf"):
@@ -1088,6 +1132,29 @@ def run_C16(ctx):
                                                        f"enccf {hx(k2)} {hx(v2)} {hx(m)}", f"dec {hx(c2)}", f"deccf {hx(k2)} {hx(v2)} {hx(c2)}"],
                      pairs=[(0, 3), (0, 4), (5, 6)])
             allc.append(x)
+    # sweep of the cloning moment: clone after every number of units t = 1..N processed (in one call or two); the clone and the
+    # original must both continue like a fresh instance
+    N = SWEEP_T_THOROUGH if ctx.thorough else SWEEP_T
+    for (fam, mode) in targets:
+        base = mode if fam in ("stream", "core") else ("cbc-enc" if fam == "buf" else mode)
+        pool = [q for q in matrix_for(base) if q[0] <= (16 if fam in ("stream", "core") else 8)]
+        cfgs = rng.sample(pool, min(3, len(pool)))
+        for t in range(1, (N if fam in ("block", "buf") else N // 2) + 1):
+            bs, w = cfgs[t % len(cfgs)]
+            mbs = mode_bs(mode, bs) if fam == "block" else bs
+            key = rb(rng, 16)
+            iv = stream_iv(rng, mode, bs, key)[0] if fam in ("stream", "core") else rb(rng, ivlen(mode, bs))
+            op = {"block": "blocks", "buf": "data", "stream": "apply", "core": "applyblocks"}[fam]
+            t1 = rng.randrange(0, t + 1) if t % 3 == 0 else t
+            h1 = [f"{op} {hx(rb(rng, t1 * mbs))}"] + ([f"{op} {hx(rb(rng, (t - t1) * mbs))}"] if t1 != t else [])
+            a, b = f"{op} {hx(rb(rng, 2 * mbs))}", f"{op} {hx(rb(rng, 2 * mbs))}"
+            st = {"block": "ivstate", "buf": "getstate", "stream": "corestate", "core": "ivstate"}[fam]
+            x = Case(fam, mode, bs, w, key, iv, ops=h1 + ["clone", a, st, "use 1", b, st],
+                     tags=[None] * (len(h1) + 1) + [0, 0, None, 1, 1], role="interleaved", cls_sweep=1)
+            y = Case(fam, mode, bs, w, key, iv, ops=h1 + [a, st], role="fresh-orig")
+            z = Case(fam, mode, bs, w, key, iv, ops=h1 + [b, st], role="fresh-clone")
+            groups.append((x, y, z, len(h1)))
+            allc += [x, y, z]
     res = ctx.run(allc, layers=())
     ctx.no_panic(allc, res)
     for (x, y, z, n1) in groups:
